@@ -942,6 +942,12 @@ func newBaseInterpreter(hpkg *ssa.Package) (i *interpreter, err error) {
 	}()
 	call(i, nil, token.NoPos, hpkg.Func("init"), nil)
 	i.sched.teardown()
+	i.mutable = findMutableGlobals(i.prog)
+	if os.Getenv("GOSX_MUTABLE") != "" {
+		for _, g := range i.mutable {
+			fmt.Fprintln(os.Stderr, "mutable global:", g.Pkg.Pkg.Path()+"."+g.Name())
+		}
+	}
 	return i, nil
 }
 
@@ -959,6 +965,14 @@ func (b *interpreter) fork(p *pathCtx) *interpreter {
 		panicNilError:      b.panicNilError,
 		sizes:              b.sizes,
 		px:                 p,
+		mutable:            b.mutable,
+	}
+	if len(b.mutable) > 0 {
+		i.overlay = make(map[*ssa.Global]*value, len(b.mutable))
+		memo := map[*value]*value{}
+		for _, g := range b.mutable {
+			i.overlay[g] = deepCopy(b.globals[g], memo).(*value)
+		}
 	}
 	i.sched = newSched(p)
 	return i
